@@ -87,6 +87,7 @@ struct Op
     bool main_first = false; // simulated execution before the one-member reference (cold-start runs)
     uint64_t garbage_seed = 0;
     std::vector<sim::Switch> schedule; // explicit (ST_REPLAY)
+    std::vector<sim::Switch> schedule2; // explicit decisions of the op's second simulated execution (transform called from an application region)
 
     js::Value to_json() const;
     static Op from_json(const js::Value &v);
